@@ -37,6 +37,14 @@ theorem accept_implies_protected (k : Bool) (attrs : List Attr)
       simp only [prescan] at h1
       simp only [decodeWalk] at h2
       exact ih h1 h2
+    | useCandidate =>
+      simp only [prescan] at h1
+      simp only [decodeWalk] at h2
+      exact ih h1 h2
+    | priority n =>
+      simp only [prescan] at h1
+      simp only [decodeWalk] at h2
+      exact ih h1 h2
 
 /-- the pre-scan is exactly "some MESSAGE-INTEGRITY protects the message" -/
 theorem prescan_iff_protected (attrs : List Attr) : prescan attrs = true ↔ (protectingMi attrs).isSome = true := by
